@@ -5,7 +5,7 @@ use super::{
 use crate::{
     html::attribute::{any_attribute::AnyAttribute, Attribute},
     hydration::Cursor,
-    renderer::Rndr,
+    renderer::{CastFrom, Rndr},
     ssr::StreamBuilder,
 };
 use either_of::Either;
@@ -605,7 +605,13 @@ where
             .into_iter()
             .map(|child| child.hydrate::<FROM_SERVER>(cursor, position))
             .collect();
-        let parent = cursor.current().parent_element();
+        // if nothing has been hydrated under this parent yet, the cursor is
+        // still on the parent element itself
+        let parent = if position.get() == Position::FirstChild {
+            crate::renderer::types::Element::cast_from(cursor.current())
+        } else {
+            cursor.current().parent_element()
+        };
         Self::State { states, parent }
     }
 
